@@ -1,7 +1,7 @@
 (* C11 correspondence: observed behaviour of an in-process frps (server/control.go, server/service.go,
    server/proxy/proxy.go; hand-off: pkg/util/vhost/vhost.go, server/group/tcp.go, tcpmux.go) driven by a
    scripted client, against Model/Pool.v. *)
-From FRP Require Export Corr.Common Model.Pool.
+From FRP Require Export Corr.Common Model.Pool gen.GenSendLoop.
 Open Scope Z_scope.
 
 (* A phase: run the listed threads, each for the given number of its own steps (64 = "until it blocks or
@@ -11,6 +11,8 @@ Definition phase := (list (Z * Z) * Z * Z)%type.   (* thread ids and step counts
 
 Inductive case :=
 | CPool (client_pc server_max : Z) (reqs : list preq) (dead : list Z)
+        (wfail_from : Z)                           (* writes on the control connection fail from the k-th dequeued
+                                                      message on; -1 = never *)
         (phases : list phase)
         (torn : bool)                              (* the session was ended during the case *)
         (conns : list (Z * Z))                     (* per work socket: 0 open+idle | 1 closed | 2+u bridged to user u *)
@@ -26,9 +28,13 @@ Inductive case :=
 Definition sched_of (l : list (Z * Z)) : list nat :=
   List.concat (map (fun p => repeat (Z.to_nat (fst p)) (Z.to_nat (snd p))) l).
 
-Definition cfg_of (client_pc server_max : Z) (reqs : list preq) (dead : list Z) : pcfg :=
+Definition cfg_of (client_pc server_max : Z) (reqs : list preq) (dead : list Z) (wfail_from : Z) : pcfg :=
   {| cf_client_pc := client_pc; cf_server_max := server_max; cf_reqs := reqs;
-     cf_dead := fun c => existsb (Z.eqb (Z.of_nat c)) dead |}.
+     cf_dead := fun c => existsb (Z.eqb (Z.of_nat c)) dead;
+     (* capacity of sendCh and the send loop's reaction to a write error: as today's source says (T11send) *)
+     cf_qcap := gen_sendch_cap;
+     cf_wfail := fun k => (0 <=? wfail_from) && (wfail_from <=? k);
+     cf_sl_survives := gen_sendloop_survives_write_error |}.
 
 Definition conn_code (s : pst) (c : nat) : Z :=
   match pl_view s c with
@@ -52,7 +58,7 @@ Fixpoint run_phases (cfg : pcfg) (k : Z) (ps : list phase) (s : pst) : pst * Z :
   | [] => (s, 0)
   | (l, oreq, olen) :: r =>
       let s1 := pl_run cfg (sched_of l) s in
-      if negb ((oreq =? -1) || (oreq =? ps_req s1)) then (s1, 100 * k + 1)
+      if negb ((oreq =? -1) || (oreq =? ps_sent s1)) then (s1, 100 * k + 1)
       else if negb ((olen =? -1) || (olen =? pl_pool_len s1)) then (s1, 100 * k + 2)
       else run_phases cfg (k + 1) r s1
   end.
@@ -82,8 +88,8 @@ Definition vis_code (f : ifate) : Z :=
 
 Definition check_case (c : case) : Z :=
   match c with
-  | CPool cpc smax reqs dead phases torn conns users starts =>
-      let cfg := cfg_of cpc smax reqs dead in
+  | CPool cpc smax reqs dead wf phases torn conns users starts =>
+      let cfg := cfg_of cpc smax reqs dead wf in
       let '(s, code) := run_phases cfg 1 phases (pl_init cfg) in
       if negb (code =? 0) then code
       else if negb (forallb (fun p => conn_code s (Z.to_nat (fst p)) =? snd p) conns) then 3
@@ -114,12 +120,12 @@ Fixpoint nodup_z (l : list Z) : bool :=
 
 Definition C11_holds (c : case) : Z :=
   match c with
-  | CPool cpc smax reqs dead phases torn conns users starts =>
+  | CPool cpc smax reqs dead wf phases torn conns users starts =>
       let pc := Z.max 0 (Z.min cpc smax) in
       (* pooled connections never exceed poolCount + 10 *)
       if negb (forallb (fun p : phase => snd p <=? pc + 10) phases) then 21
       (* advance requests: the first checkpoint is taken right after login *)
-      else if negb (match phases with (_, oreq, _) :: _ => (oreq =? -1) || (oreq =? pc) | [] => true end) then 22
+      else if negb (match phases with (_, oreq, _) :: _ => (oreq =? -1) || (oreq =? pc) || (0 <=? wf) | [] => true end) then 22
       (* a work connection is announced (hence consumed) at most once *)
       else if negb (nodup_z (map (fun o => fst (fst (fst o))) starts)) then 23
       (* after the session ended no work socket is left open and idle *)
@@ -127,6 +133,8 @@ Definition C11_holds (c : case) : Z :=
       (* no user socket bridged to a conn that announces another user: conn code and user code are inverse *)
       else if negb (forallb (fun p => (snd p <? 2) ||
                        existsb (fun q => (fst q =? snd p - 2) && (snd q =? 2 + fst p)) conns) users) then 25
+      (* write-fault cases end after every user's timeout has been waited for: none may still be open *)
+      else if (0 <=? wf) && existsb (fun p => snd p =? 0) users then 26
       else 0
   | CHand _ _ _ fates =>
       if existsb (fun p => snd p =? 3) fates then 31 else 0
@@ -135,10 +143,11 @@ Definition C11_holds (c : case) : Z :=
       if (1 <=? loop_ended) && existsb (fun p => snd p =? 3) fates then 51 else 0
   end.
 
-Definition is_pool (c : case) : bool := match c with CPool _ _ _ _ _ _ _ _ _ => true | _ => false end.
-Definition case_torn (c : case) : bool := match c with CPool _ _ _ _ _ t _ _ _ => t | _ => false end.
-Definition case_has_dead (c : case) : bool := match c with CPool _ _ _ (_ :: _) _ _ _ _ _ => true | _ => false end.
+Definition case_wfail (c : case) : bool := match c with CPool _ _ _ _ wf _ _ _ _ _ => 0 <=? wf | _ => false end.
+Definition is_pool (c : case) : bool := match c with CPool _ _ _ _ _ _ _ _ _ _ => true | _ => false end.
+Definition case_torn (c : case) : bool := match c with CPool _ _ _ _ _ _ t _ _ _ => t | _ => false end.
+Definition case_has_dead (c : case) : bool := match c with CPool _ _ _ (_ :: _) _ _ _ _ _ _ => true | _ => false end.
 Definition case_has_closed_user (c : case) : bool :=
-  match c with CPool _ _ _ _ _ _ _ us _ => existsb (fun p => snd p =? 1) us | _ => false end.
+  match c with CPool _ _ _ _ _ _ _ _ us _ => existsb (fun p => snd p =? 1) us | _ => false end.
 Definition case_has_bridged (c : case) : bool :=
-  match c with CPool _ _ _ _ _ _ _ us _ => existsb (fun p => 2 <=? snd p) us | _ => false end.
+  match c with CPool _ _ _ _ _ _ _ _ us _ => existsb (fun p => 2 <=? snd p) us | _ => false end.
